@@ -9,7 +9,8 @@
 (*           G.1) as extended by F&O 5.6.1 for Mode "xp2" / "xp3"          *)
 (*   why     "ok", or the first rule that fails: "badesc" (not an XSD       *)
 (*           escape), "grammar", "classdash" (derivable only if an         *)
-(*           unescaped '-' may stand anywhere in a class), "backref"       *)
+(*           unescaped '-' may stand anywhere in a class), "ncg" (derivable *)
+(*           only with the non-capturing groups of XPath 3.0), "backref"   *)
 (*   unsure  the verdict depends on rules this module leaves out (position *)
 (*           of an unescaped '-' in a class under XSD 1.1): no vector      *)
 (*   qsub    the set of contiguous sub-strings of the token string: with   *)
@@ -60,7 +61,8 @@ OrdLast(t)  == CASE t = "(?:" -> 58 [] t \in {"{2}", "{1,2}", "{2,1}", "{1,}", "
                  [] OTHER -> OrdFirst(t)
 PlainInClass == {"a", "^", "$", ".", "*", "?", "+", "(", ")", "|", "(?:", "{2}", "{1,2}", "{2,1}", "{1,}", "{,2}"}
 
-(* the grammar, parameterised by the token string w and by strict = XSD 1.0 hyphen rules *)
+(* the grammar, parameterised by the token string w and by options opt:
+   opt.strict = XSD 1.0 hyphen rules, opt.ncg = non-capturing groups "(?:" exist *)
 Tok(w, p) == IF p >= 1 /\ p <= Len(w) THEN w[p] ELSE "<end>"
 
 RECURSIVE RegExp(_, _, _), Branch(_, _, _), Atom(_, _, _), CharClass(_, _, _), Group(_, _, _, _)
@@ -70,44 +72,44 @@ Quant(w, j) ==
             THEN {j + 1} \cup (IF Xp /\ Tok(w, j + 2) = "?" THEN {j + 2} ELSE {})
             ELSE {})
 
-Atom(w, i, strict) ==
+Atom(w, i, opt) ==
   LET t == Tok(w, i + 1) IN
   CASE t \in {"a", "-", "."} \cup SingleEsc \cup MultiEsc -> {i + 1}
     [] t \in {"^", "$"} -> {i + 1}          \* xsd: ordinary characters; xp: anchors (quantifiable atoms)
     [] t = "%1" -> IF Xp THEN {i + 1} ELSE {}
-    [] t = "[" -> CharClass(w, i, strict)
-    [] t = "(" \/ (t = "(?:" /\ Mode = "xp3") ->
-         {j + 1 : j \in {e \in RegExp(w, i + 1, strict) : Tok(w, e + 1) = ")"}}
+    [] t = "[" -> CharClass(w, i, opt)
+    [] t = "(" \/ (t = "(?:" /\ opt.ncg) ->
+         {j + 1 : j \in {e \in RegExp(w, i + 1, opt) : Tok(w, e + 1) = ")"}}
     [] OTHER -> {}
 
-Branch(w, i, strict) ==
-  {i} \cup UNION {Branch(w, q, strict) : q \in UNION {Quant(w, j) : j \in Atom(w, i, strict)}}
+Branch(w, i, opt) ==
+  {i} \cup UNION {Branch(w, q, opt) : q \in UNION {Quant(w, j) : j \in Atom(w, i, opt)}}
 
-RegExp(w, i, strict) ==
-  LET b == Branch(w, i, strict) IN
-  b \cup UNION {RegExp(w, j + 1, strict) : j \in {e \in b : Tok(w, e + 1) = "|"}}
+RegExp(w, i, opt) ==
+  LET b == Branch(w, i, opt) IN
+  b \cup UNION {RegExp(w, j + 1, opt) : j \in {e \in b : Tok(w, e + 1) = "|"}}
 
-IsEndPoint(t, strict) == t \in PlainInClass \cup SingleEsc \cup (IF strict THEN {} ELSE {"-"})
+IsEndPoint(t, opt) == t \in PlainInClass \cup SingleEsc \cup (IF opt.strict THEN {} ELSE {"-"})
 
 (* positions after ONE part starting at p *)
-Part(w, p, first, strict) ==
+Part(w, p, first, opt) ==
   LET t == Tok(w, p + 1)
       lastHere == Tok(w, p + 2) = "]" \/ (Tok(w, p + 2) = "-" /\ Tok(w, p + 3) = "[")
   IN (IF t \in PlainInClass \cup SingleEsc \cup MultiEsc THEN {p + 1} ELSE {})
-     \cup (IF t = "-" /\ (~strict \/ first \/ lastHere) THEN {p + 1} ELSE {})
-     \cup (IF /\ IsEndPoint(t, strict) /\ Tok(w, p + 2) = "-" /\ IsEndPoint(Tok(w, p + 3), strict)
+     \cup (IF t = "-" /\ (~opt.strict \/ first \/ lastHere) THEN {p + 1} ELSE {})
+     \cup (IF /\ IsEndPoint(t, opt) /\ Tok(w, p + 2) = "-" /\ IsEndPoint(Tok(w, p + 3), opt)
               /\ OrdLast(t) <= OrdFirst(Tok(w, p + 3))
            THEN {p + 3} ELSE {})
 
-Group(w, p, first, strict) ==
-  UNION {{e} \cup Group(w, e, FALSE, strict) : e \in Part(w, p, first, strict)}
+Group(w, p, first, opt) ==
+  UNION {{e} \cup Group(w, e, FALSE, opt) : e \in Part(w, p, first, opt)}
 
-CharClass(w, i, strict) ==
+CharClass(w, i, opt) ==
   IF Tok(w, i + 1) # "[" THEN {}
   ELSE LET p == IF Tok(w, i + 2) = "^" THEN i + 2 ELSE i + 1
-           ends == Group(w, p, TRUE, strict)
+           ends == Group(w, p, TRUE, opt)
        IN {q + 1 : q \in {e \in ends : Tok(w, e + 1) = "]"}}
-          \cup {x + 1 : x \in UNION {{e \in CharClass(w, q + 1, strict) : Tok(w, e + 1) = "]"}
+          \cup {x + 1 : x \in UNION {{e \in CharClass(w, q + 1, opt) : Tok(w, e + 1) = "]"}
                                        : q \in {e \in ends : Tok(w, e + 1) = "-" /\ Tok(w, e + 2) = "["}}}
 
 (* nesting depth of class brackets after the first p tokens (only meaningful for derivable strings) *)
@@ -117,31 +119,36 @@ ClsDepth(w, p) == IF p = 0 THEN 0
                        IF w[p] = "[" THEN d + 1 ELSE IF w[p] = "]" /\ d > 0 THEN d - 1 ELSE d
 
 (* F&O 5.6.1: a back-reference is an error unless the group it refers to is closed before it *)
-BackrefOK(w, strict) ==
+BackrefOK(w, opt) ==
   \A p \in 1..Len(w) :
      (w[p] = "%1" /\ ClsDepth(w, p - 1) = 0) =>
         \E o \in 1..(p - 1) :
            /\ w[o] = "(" /\ ClsDepth(w, o - 1) = 0
            /\ \A o2 \in 1..(o - 1) : ~(w[o2] = "(" /\ ClsDepth(w, o2 - 1) = 0)
-           /\ \E c \in (o + 1)..(p - 1) : w[c] = ")" /\ (c - 1) \in RegExp(w, o, strict)
+           /\ \E c \in (o + 1)..(p - 1) : w[c] = ")" /\ (c - 1) \in RegExp(w, o, opt)
 
 NoBadEsc(w) == \A p \in 1..Len(w) : w[p] \notin BadEsc
 NoBackrefInClass(w) == \A p \in 1..Len(w) : w[p] = "%1" => ClsDepth(w, p - 1) = 0
 
-Derivable(w, strict) == Len(w) \in RegExp(w, 0, strict)
-Valid(w, strict) == NoBadEsc(w) /\ NoBackrefInClass(w) /\ Derivable(w, strict) /\ BackrefOK(w, strict)
+Derivable(w, opt) == Len(w) \in RegExp(w, 0, opt)
+Valid(w, opt) == NoBadEsc(w) /\ NoBackrefInClass(w) /\ Derivable(w, opt) /\ BackrefOK(w, opt)
 
 SubStrings(w) == {SubSeq(w, i, j) : i \in 1..(Len(w) + 1), j \in 0..Len(w)}
 
+Strict  == [strict |-> TRUE,  ncg |-> Mode = "xp3"]
+Relaxed == [strict |-> FALSE, ncg |-> Mode = "xp3"]
+WithNcg == [strict |-> TRUE,  ncg |-> TRUE]
+
 Why(w) == IF ~NoBadEsc(w) THEN "badesc"
           ELSE IF ~NoBackrefInClass(w) THEN "grammar"
-          ELSE IF ~Derivable(w, TRUE) THEN (IF Derivable(w, FALSE) THEN "classdash" ELSE "grammar")
-          ELSE IF ~BackrefOK(w, TRUE) THEN "backref" ELSE "ok"
+          ELSE IF ~Derivable(w, Strict) THEN (IF Derivable(w, WithNcg) THEN "ncg"
+                                             ELSE IF Derivable(w, Relaxed) THEN "classdash" ELSE "grammar")
+          ELSE IF ~BackrefOK(w, Strict) THEN "backref" ELSE "ok"
 
 Set(w) == /\ toks' = w
-          /\ valid' = Valid(w, TRUE)
+          /\ valid' = Valid(w, Strict)
           /\ why' = Why(w)
-          /\ unsure' = (XsdVersion = "1.1" /\ Valid(w, TRUE) # Valid(w, FALSE))
+          /\ unsure' = (XsdVersion = "1.1" /\ Valid(w, Strict) # Valid(w, Relaxed))
           /\ qsub' = SubStrings(w)
 
 Init == toks = <<>> /\ valid = TRUE /\ why = "ok" /\ unsure = FALSE /\ qsub = {<<>>}
@@ -155,14 +162,14 @@ Spec == Init /\ [][Next]_vars
 
 (* ---- laws ---------------------------------------------------------------- *)
 (* the relaxed hyphen rules accept at least what the strict ones accept *)
-StrictImpliesRelaxed == valid => Valid(toks, FALSE)
+StrictImpliesRelaxed == valid => Valid(toks, Relaxed)
 (* a valid expression stays valid inside a group, as an alternative, and as a branch repeated twice *)
 HasRef == \E p \in 1..Len(toks) : toks[p] = "%1"
 ClosureLaw ==
-   /\ (valid /\ ~HasRef) => Valid(<<"(">> \o toks \o <<")">>, TRUE)
-   /\ valid => /\ Valid(toks \o <<"|">>, TRUE)
-               /\ Valid(<<"|">> \o toks, TRUE)
-               /\ Valid(toks \o <<"a">>, TRUE)
+   /\ (valid /\ ~HasRef) => Valid(<<"(">> \o toks \o <<")">>, Strict)
+   /\ valid => /\ Valid(toks \o <<"|">>, Strict)
+               /\ Valid(<<"|">> \o toks, Strict)
+               /\ Valid(toks \o <<"a">>, Strict)
 (* what can never be valid *)
 NeverValid ==
    /\ (toks # <<>> /\ toks[1] \in QuantToks \cup {")", "]", "{2,1}", "{,2}"}) => ~valid
